@@ -1037,7 +1037,7 @@ WARM = {
 
 class Adapter(object):
     NAME = 'C20'
-    CHUNK = 6          # runs per dispatched chunk: short, so that the soft deadline is honoured closely
+    CHUNK = 4          # runs per dispatched chunk: short, so that the soft deadline is honoured closely
     traces = None
     RULE = ('Each evaluation is one simulated run: 1-4 caller clients (pipeline / z-method / primitives programs over the '
             'public API) sharing a pool of argument objects, executed (a) each alone in a forked pristine process on fresh '
